@@ -53,6 +53,9 @@ func (ex *Exec) call(instr ssa.Instruction, cc *ssa.CallCommon, pc *Term, st *St
 		if ex.top.forceInline != nil && ex.top.forceInline[key] {
 			inline = true
 		}
+		if ex.top.inlineAll {
+			inline = true
+		}
 		if inline {
 			res = ex.callInline(callee, args, pc, st, fmt.Sprintf("%s#%d", name, ord))
 		} else {
